@@ -34,17 +34,22 @@ PROPS["C06"] = {
 }
 
 
+# the textual layer of mapping KEYS: every concatenation of <= n pieces (spec/TauKeyText.tla)
+MC_KEY = lambda n: {"module": "MC_Key", "constants": {"MaxLen": n, "Dev": '{"key_whitespace"}'},
+                    "invariants": ["EngInRef", "Written", "ScalarStricter", "Emit"],
+                    "forms": ["open", "pinned", "pinned_ws", "pinned_q"], "workers": 8}
+
 MC_TYPE = lambda tier: {"module": "MC_Type", "constants": {"MaxList": q(tier, 2, 3)},
                         "invariants": ["QuantStricter", "CastStricter", "NullNeutral", "Emit"],
                         "forms": ["loads", "rejected"], "workers": 4}
 
 PROPS["C02"] = {
     "title": "Verdicts follow the documented rule language",
-    "models": lambda tier: [MC_TYPE(tier)],
-    "gens": lambda tier: [{"topic": "lang", "n": q(tier, 1500, 30000)}, {"topic": "str", "n": q(tier, 300, 6000)},
+    "models": lambda tier: [MC_TYPE(tier), MC_KEY(q(tier, 3, 4))],
+    "gens": lambda tier: [{"topic": "keys", "n": q(tier, 1500, 20000)}, {"topic": "lang", "n": q(tier, 1500, 30000)}, {"topic": "str", "n": q(tier, 300, 6000)},
                           {"topic": "quant", "n": q(tier, 200, 4000)}, {"topic": "num", "n": q(tier, 400, 6000)},
                           {"topic": "path", "n": q(tier, 150, 3000)}, {"topic": "typ", "n": q(tier, 400, 8000)}],
-    "rules": ["oracle", "tri_oracle", "tri_both", "load_outcome", "load_panic", "match_panic"],
+    "rules": ["oracle", "tri_oracle", "tri_both", "load_outcome", "load_panic", "match_panic", "key_parse", "key_panic"],
     "chunk": 1500,
 }
 
@@ -141,9 +146,11 @@ PROPS["C04"] = {
          "no_cases": True, "workers": 8},
         {"module": "MC_Ident", "constants": {"MaxLen": q(tier, 3, 4), "Dev": "{}", "IcBuild": "FALSE"},
          "invariants": ["NoPanic", "WriteRead", "Emit"], "forms": ["ok", "err", "unk"], "workers": 8},
+        MC_KEY(q(tier, 3, 4)),
     ],
-    "gens": lambda tier: [{"topic": "fuzz", "n": q(tier, 3000, 60000)}, {"topic": "typ", "n": q(tier, 400, 8000)}],
-    "rules": ["load_panic", "ident_panic"],
+    "gens": lambda tier: [{"topic": "fuzz", "n": q(tier, 3000, 60000)}, {"topic": "typ", "n": q(tier, 400, 8000)},
+                          {"topic": "keys", "n": q(tier, 3000, 40000)}],
+    "rules": ["load_panic", "ident_panic", "key_panic"],
     "chunk": 3000,
 }
 
@@ -218,9 +225,9 @@ PROPS["C17"] = {
 
 PROPS["C16"] = {
     "title": "Matching reads only the fields the rule names",
-    "models": lambda tier: [],
-    "gens": lambda tier: [{"topic": "find", "n": q(tier, 300, 6000)}],
-    "rules": ["find_key", "den", "match_panic"],
+    "models": lambda tier: [MC_KEY(4)],
+    "gens": lambda tier: [{"topic": "find", "n": q(tier, 300, 6000)}, {"topic": "keys", "n": q(tier, 3000, 40000)}],
+    "rules": ["find_key", "den", "match_panic", "key_parse", "key_fabricated", "key_panic"],
     "chunk": 150,
 }
 
